@@ -71,8 +71,8 @@ def mkTerminal (h : Heap) (sp : TermSpec) : Heap × Nat :=
   let h1 : Heap := { h with n := x + 1, node := upd h.node x nd, warns := h.warns + sp.warns }
   let h2 : Heap :=
     if sp.kind.hasPengInit then
-      { h1 with peng := upd h1.peng x (some h1.nRec),
-                prec := upd h1.prec h1.nRec { pe := some sp.pe, n := some sp.n, g := some sp.g },
+      { h1 with peng := upd h1.peng x (some (ownRec h1.nRec)),
+                prec := upd h1.prec (ownRec h1.nRec) { pe := some sp.pe, n := some sp.n, g := some sp.g },
                 nRec := h1.nRec + 1 }
     else h1
   let h3 : Heap :=
